@@ -321,8 +321,9 @@ Section Holds.
           || (csum_eqb (o_sum ob) (CSFile (spec_bytes want)) && strictly_sorted (map fst want)
               && match o_reloaded r with Some m => list_eqb kv_eqb m want | None => false end)
         else csum_eqb (o_sum ob) sum_before)
-    (* the 4th of four identical consecutive plain All runs regenerates nothing and changes nothing *)
-    && (if Nat.leb 3 streak && hashable then
+    (* the 4th of four identical consecutive plain All runs regenerates nothing and changes nothing (as long
+       as gengo.sum can be written: with an unwritable one every run fails after regenerating everything) *)
+    && (if Nat.leb 3 streak && hashable && negb (csum_eqb sum_before CSBlocked) then
           is_nil (o_executed r) && ctree_eqb (o_tree ob) before && csum_eqb (o_sum ob) sum_before
         else true).
 
